@@ -11,6 +11,7 @@ import (
 	tally "github.com/uber-go/tally/v4"
 	"pgregory.net/rapid"
 
+	"verifharness/internal/collide"
 	"verifharness/internal/model"
 	"verifharness/internal/pbt"
 	"verifharness/internal/rec"
@@ -32,6 +33,10 @@ type Case struct {
 	RootVSpec []pbt.F `json:"rootVSpec,omitempty"`
 	RootDSpec []int64 `json:"rootDSpec,omitempty"`
 	Ops       []Op    `json:"ops"`
+	// Companion > 0: before the judged histogram is created, another histogram with a DIFFERENT
+	// spec that collides with it in the internal bucket cache (internal/collide) is created on a
+	// subscope of the same root; the judged histogram must be unaffected
+	Companion int `json:"companion,omitempty"`
 }
 
 var boundPool = []float64{0, math.Copysign(0, -1), 1, -1, 0.5, 2, 10, -10, 1e-300, -1e-300, 1e300, -1e300,
@@ -121,6 +126,9 @@ func gen(t *rapid.T) Case {
 	db := append(append([]int64(nil), c.DSpec...), c.RootDSpec...)
 	if c.SpecNil && c.RootDef == "" {
 		db = append(db, 0, int64(10*time.Millisecond), int64(5*time.Second))
+	}
+	if rapid.IntRange(0, 2).Draw(t, "companion?") == 0 {
+		c.Companion = rapid.IntRange(1, 4).Draw(t, "companion")
 	}
 	nops := rapid.IntRange(1, 24).Draw(t, "nops")
 	for i := 0; i < nops; i++ {
@@ -257,6 +265,13 @@ func run(c Case) (pbt.Outcome, error) {
 		ts = tally.NewTestScope("", nil)
 		scope = ts
 	}
+	companion := false
+	if c.Companion > 0 && spec != nil {
+		if cs := collide.Companions(spec); len(cs) > 0 {
+			scope.SubScope("comp").Histogram("other", cs[(c.Companion-1)%len(cs)])
+			companion = true
+		}
+	}
 	h := scope.Histogram("h", spec)
 
 	var vpairs []model.VPair
@@ -338,6 +353,9 @@ func run(c Case) (pbt.Outcome, error) {
 		var allocV []model.VPair
 		var allocD []model.DPair
 		for _, e := range log.Events() {
+			if e.Name != "h" {
+				continue // the colliding companion histogram (nothing is recorded on it)
+			}
 			switch e.Kind {
 			case rec.KBucketV:
 				allocV = append(allocV, model.VPair{Lo: e.Lo, Hi: e.Hi})
@@ -388,10 +406,19 @@ func run(c Case) (pbt.Outcome, error) {
 		}
 	case "test":
 		snap := ts.Snapshot().Histograms()
-		if len(snap) != 1 {
-			errs.Addf("snapshot has %d histograms, want 1", len(snap))
+		nh := 0
+		for _, hs := range snap {
+			if hs.Name() == "h" {
+				nh++
+			}
+		}
+		if nh != 1 {
+			errs.Addf("snapshot has %d histograms named h, want 1", nh)
 		}
 		for _, hs := range snap {
+			if hs.Name() != "h" {
+				continue
+			}
 			if isDur {
 				if hs.Values() != nil && len(hs.Values()) != 0 {
 					errs.Addf("duration histogram snapshot has values %v", hs.Values())
@@ -481,6 +508,9 @@ func run(c Case) (pbt.Outcome, error) {
 	}
 	if c.SpecNil {
 		out.Classes = append(out.Classes, "nil-spec")
+	}
+	if companion {
+		out.Classes = append(out.Classes, "colliding-companion")
 	}
 	if altSingle {
 		out.Classes = append(out.Classes, "empty-spec")
